@@ -115,6 +115,7 @@ AddPost(ps, all) ==   \* git add <paths>: index takes the worktree state of thos
       idx |-> [p \in Paths |-> IF p \in ps THEN {W[p]} ELSE {I[p]}],
       wt |-> Single(W)]
 
+CleanEntangled(p) == \E pq \in Under : (pq[1] = p /\ I[pq[2]] # None) \/ (pq[2] = p /\ I[pq[1]] # None)
 RemovePost(p) == \* git rm -f <p>
   [verdict |-> IF I[p] = None THEN "refuse" ELSE "ok", head |-> "H",
    idx |-> [q \in Paths |-> IF q = p THEN {None} ELSE {I[q]}],
@@ -127,9 +128,11 @@ MovePost(p, q) == \* git mv <p> <q>
    idx |-> [r \in Paths |-> IF r = p THEN {None} ELSE IF r = q THEN {I[p]} ELSE {I[r]}],
    wt  |-> [r \in Paths |-> IF r = p THEN {None} ELSE IF r = q THEN {W[p]} ELSE {W[r]}]]
 
+\* (an untracked file below / above a path that the index still holds as the other kind is, for git, inside a
+\*  tracked name: git clean leaves it - found by the git witness; both outcomes are allowed there)
 CleanPost ==     \* git clean -f -d: untracked files go, everything else stays
   [verdict |-> "ok", head |-> "H", idx |-> Single(I),
-   wt |-> [p \in Paths |-> IF Untracked(p) THEN {None} ELSE {W[p]}]]
+   wt |-> [p \in Paths |-> IF Untracked(p) THEN (IF CleanEntangled(p) THEN {None, W[p]} ELSE {None}) ELSE {W[p]}]]
 
 CommitPost ==    \* records exactly the index; refuses an empty commit
   [verdict |-> IF I = H THEN "refuse" ELSE "ok", head |-> "I", idx |-> Single(I), wt |-> Single(W)]
